@@ -4,10 +4,32 @@ from props import standard_check
 
 def check_C01(tier, seed):
     return standard_check(
-        "C01", tier, seed, "col", ["c01_colbuf", "c01_api"],
-        trusted=[],
-        assumptions=[],
-        rule="")
+        "C01", tier, seed, "col", ["c01_colbuf", "c01_api", "c01_csv"],
+        trusted=[
+            "lz4_flex / pco (generic compression of data section 0) are not modelled: the column-level suite compares the "
+            "column after Column::lz4_or_pco_decode (the real round trip is exercised, not proved); the f64 -> f32 -> f64 "
+            "exactness test of pco's fp32 path is likewise only exercised",
+            "f64 Display (`to_string`) is a section variable of the model (only its output length < 2^24 is assumed); the "
+            "harness hands the model the strings Rust produces",
+            "the query engine between Codec::decode and the result rows (planner, streaming operators, materialisation to "
+            "RawVal / BasicTypeColumn) is not modelled: it is reached by both suites and compared cell by cell",
+            "capnp (EventBuffer::serialize/deserialize) is external: the wire variant of the API suite exercises it",
+        ],
+        assumptions=[
+            "value domain: i64 without i64::MAX, f64 patterns without 0x7ffaaaaaaaaaaaaa (the engine's NULL markers)",
+            "strings shorter than 2^24 bytes and dictionaries smaller than 2^40 bytes (IndexedPackedStrings packs offset<<24|len)",
+            "ingestion pushes only (ColumnBuffer::push_* with present = None); the caller-supplied null map of compaction is C07",
+        ],
+        rule="c01_colbuf: seeded generator over 14 integer classes (width edges with/without offset, negative, i64 extremes, "
+             "monotone runs around the 90% delta threshold, F10/F19 shapes), 8 float classes, 16 string classes (254/255/256/510/765 "
+             "bytes, unicode, hex around the >5 threshold, dictionary cardinality around len/2 and 254..257, and 65535..65537 oracle-only), mixed-type buffers, "
+             "8 null patterns, lengths around 8/64/128 multiples and around 1024/2048, 3 push styles (runs, split runs, one push per value with "
+             "push_nulls(gap)), 6 batch sizes; c01_api: 1-4 columns x 1-3 table buffers x 1-3 batches, ColumnData "
+             "dense/sparse/i64/sparse-i64/string/mixed/empty built by TableBuffer::new or push_row_and_timestamp, native or "
+             "serialize->deserialize, memory-only or on disk with force_flush, mem_lz4 on/off, row and column format; "
+             "c01_csv: typed tables rendered to CSV text (ints, floats via Debug, non-numeric strings, empty = NULL), "
+             "load_csv with allow_nulls_all_columns and partition sizes below / at / above the row count (oracle only). "
+             "A case is non-trivial when the column has a NULL or two different adjacent cells; distinct by hash of the input")
 
 
 CHECKS = {
@@ -16,8 +38,22 @@ CHECKS = {
 
 CLAIMED = {
     "C01": dict(
-        text="(in progress)",
-        note="",
-        technique="Coq proof of encoder/decoder round trips over an executable model + column-structure and API differential",
+        text="Machine-checked proof (Coq 8.16, closed under the global context) over an executable model transcribed from "
+             "column_buffer.rs / integers.rs / floats.rs / strings.rs / stringpack.rs / bitvec.rs / codec.rs: for EVERY "
+             "sequence of ingestion pushes into a column buffer, the cells the query-path decode program reads from the "
+             "finished column equal the supplied cells with NULLs in place and the documented int+float->float / "
+             "anything+string->string degradation (C01_roundtrip, by a refinement invariant over the push state machine, "
+             "incl. the byte-level null bitmap: C01_bitmap); per-type theorems: integer encode->decode for every rung of the "
+             "width/offset ladder, delta and plain, nullable or not, with overflow-freedom of encoder and decoder outside two "
+             "characterised classes; strings for all byte strings < 2^24 in the packed, hex-packed and dictionary layouts plus "
+             "totality of the string writer; floats bit-exact. The full statement is refuted on the faithful model by three "
+             "witnesses (F4, F10, F19), each replayed on the implementation as a known finding. The model is tied to the Rust "
+             "code on every run by a column-structure differential (codec ops, section payloads, range) and by an API-level "
+             "oracle + differential through LocustDB::ingest_efficient and SELECT (rows and columns, memory and disk).",
+        note="Proved about the model: write path + decode program semantics. Only covered by correspondence: the query "
+             "engine's execution of that program (streaming, materialisation), from_column_data/push_typed_cols glue at table "
+             "level (modelled, executed, not the subject of a theorem), lz4/pco/capnp round trips, CSV type inference (oracle only, not modelled). "
+             "Trusted: Coq kernel, extraction, OCaml/Rust glue, f64 Display.",
+        technique="Coq proof (refinement invariant + codec round trips) over an executable model + column-structure and API differential",
         design_ref="5/C01"),
 }
